@@ -386,9 +386,15 @@ class Env:
     """A fresh server with its standard mailboxes, a session under test
     (`conn`) and an independent probe session (`probe`)."""
 
-    def __init__(self, kind: str, colon: str | None = None) -> None:
+    def __init__(self, kind: str, colon: str | None = None, layout: str = '++',
+                 keywords: dict | None = None) -> None:
         self.kind = kind
         self.colon = colon      # maildir --colon: the info delimiter of message file names
+        self.layout = layout    # maildir --layout: '++' or 'fs'
+        # maildir: per-folder dovecot-keywords files, name -> [(number, keyword), ...] in file
+        # line order (numbers need not be contiguous); harness/c10_kwtables.py generates them
+        self.keywords = keywords if keywords is not None else \
+            {n: list(enumerate(k)) for n, k in MAILDIR_KEYWORDS.items()}
         self.names = NAMES[kind]
         self.real = self.names[:3]
         self.contents = Contents()
@@ -405,7 +411,7 @@ class Env:
             self.user = b'testuser'
             self.password = b'testpass'
         else:
-            self.env = await MaildirEnv().start()
+            self.env = await MaildirEnv(self.layout).start()
             if self.colon is not None:
                 self.env.config._colon = self.colon     # what --colon sets (MaildirEnv has no knob)
             self.user = b'u1'
@@ -415,19 +421,18 @@ class Env:
                 r = await c.send(b'c CREATE ' + n.encode() + b'\r\n')
                 assert b'c OK' in r, r
             await c.send(b'c LOGOUT\r\n')
-            base = os.path.join(self.env.base, 'u1')
-            for n, kws in MAILDIR_KEYWORDS.items():
+            for n, kws in self.keywords.items():
                 if kws:
-                    path = base if n == 'INBOX' else os.path.join(base, '.' + n)
-                    with open(os.path.join(path, 'dovecot-keywords'), 'w') as f:
-                        for i, k in enumerate(kws):
+                    with open(os.path.join(self.folder_path(n), 'dovecot-keywords'), 'w') as f:
+                        for i, k in kws:
                             f.write(f'{i} {k.decode()}\n')
             if prefill:
                 c = await self.env.login()
                 for k in range(prefill):
                     box = rng.choice(self.real)
                     cid = 60 + k
-                    fl = [f for f in SYS5 + MAILDIR_KEYWORDS[box] if rng.random() < 0.3]
+                    fl = [f for f in SYS5 if rng.random() < 0.3] + \
+                        [k for _, k in self.keywords.get(box, []) if rng.random() < 0.4]
                     lit = content(cid)
                     r = await c.cmd(b'p APPEND ' + box.encode() + b' (' + b' '.join(fl) + b') '
                                     + render_date(946684800 + 86400 * k) + b' {%d}\r\n' % len(lit)
@@ -439,7 +444,7 @@ class Env:
                 # name has no ':2,<flags>' suffix (pymap's own APPEND/COPY always write one)
                 for k in range(rng.choice([1, 2, 3])):
                     box = 'INBOX' if k == 0 else rng.choice(self.real)
-                    path = base if box == 'INBOX' else os.path.join(base, '.' + box)
+                    path = self.folder_path(box)
                     fn = os.path.join(path, rng.choice(['new', 'cur']), f'{1100000000 + k}.X{k}.ext')
                     with open(fn, 'wb') as f:
                         f.write(content(80 + k))
@@ -453,6 +458,50 @@ class Env:
 
     def box_id(self, name: str) -> int:
         return self.names.index(name)
+
+    def folder_path(self, name: str) -> str:
+        """directory of a maildir folder under the configured layout"""
+        base = os.path.join(self.env.base, 'u1')
+        if name == 'INBOX':
+            return base
+        return os.path.join(base, name if self.layout == 'fs' else '.' + name)
+
+    def files(self) -> dict | None:
+        """maildir: what is on disk, per folder -- the dovecot-uidlist header and records (a
+        record's key is its file-name field up to the first ':', as the backend reads it) and
+        the message files of new/ and cur/ (base name = name up to the info delimiter)."""
+        if self.kind != 'maildir':
+            return None
+        colon = self.colon or ':'
+        out = {}
+        for name in self.names:
+            path = self.folder_path(name)
+            if not os.path.isdir(os.path.join(path, 'cur')):
+                continue
+            ent = {'uidv': None, 'next': None, 'records': {}, 'files': {}}
+            try:
+                with open(os.path.join(path, 'dovecot-uidlist')) as f:
+                    lines = f.read().split('\n')
+                for fld in lines[0].split()[1:]:
+                    if fld[0] == 'V':
+                        ent['uidv'] = int(fld[1:])
+                    elif fld[0] == 'N':
+                        ent['next'] = int(fld[1:])
+                for ln in lines[1:]:
+                    if ':' in ln:
+                        before, fn = ln.split(':', 1)
+                        ent['records'][int(before.split(' ')[0])] = fn.rstrip().split(':')[0]
+            except FileNotFoundError:
+                pass
+            for sub in ('new', 'cur'):
+                try:
+                    for fn in os.listdir(os.path.join(path, sub)):
+                        key, _, info = fn.partition(colon)
+                        ent['files'][key] = (sub, info)
+                except FileNotFoundError:
+                    pass
+            out[name] = ent
+        return out
 
     # ---- white box: the backend's own mailbox objects
     async def stored(self, name: str):
@@ -518,7 +567,11 @@ class Env:
         ok = (n_msgs == len(msgs) and sorted(rec) == [x['uid'] for x in msgs]
               and n_recent == sum(1 for v in rec.values() if v))
         return {'name': name, 'msgs': msgs, 'maxuid': uidnext - 1, 'uidv': uidv, 'ro': ro, 'perm': perm,
-                'probe_consistent': ok, 'status': (n_msgs, n_recent, uidnext)}
+                'probe_consistent': ok, 'status': (n_msgs, n_recent, uidnext),
+                'kwfile': [(i, k.decode()) for i, k in self.keywords.get(name, [])]
+                if self.kind == 'maildir' else None,
+                'config': {'layout': self.layout, 'colon': self.colon}
+                if self.kind == 'maildir' else None}
 
     async def dump(self, learn: bool = False) -> list[dict]:
         return [await self.dump_box(n, learn) for n in self.names]
